@@ -214,8 +214,9 @@ def lisSize (rc : Nat) : Option Nat :=
   | 73 => some 4 | 77 => some 1 | 79 => some 2 | 130 => some 80 | 234 => some 90
   | _ => none
 
-/-- `STRUCT_RC_NN` signedness: 49 h, 50 i, 56 b, 66 B, 68 I, 70 i, 73 i, 77 B, 79 h -/
-def structSigned (rc : Nat) : Bool := rc ∈ [49, 50, 56, 70, 73, 79]
+/-- `STRUCT_RC_NN` signedness: 49 h, 50 i, 56 b, 66 B, 68 I, 70 I, 73 i, 77 B, 79 h
+(70 is unsigned since the fix of `C07-readBytes70-negative`: `cRepCode.from70` takes an `unsigned int`). -/
+def structSigned (rc : Nat) : Bool := rc ∈ [49, 50, 56, 73, 79]
 
 /-- `LIS.core.RepCode.readBytes(rc, bytes)` for the numeric codes (`theLen=None`). -/
 def readBytes (rc : Nat) (bs : List Nat) : Except Err Val :=
